@@ -13,7 +13,7 @@ From Coq Require Import List Arith ZArith Bool.
 Import ListNotations.
 Require Import MD.Topo.Model MD.Topo.Carriers MD.Topo.Run MD.Topo.Basics MD.Topo.Build MD.Topo.AbsWalk MD.Topo.Copy
   MD.Topo.EqHash MD.Topo.Frame MD.Topo.Independent MD.Topo.Subset MD.Topo.CarrierProofs MD.Topo.BuildFrom MD.Topo.Join
-  MD.Topo.Witness.
+  MD.Topo.Wf MD.Topo.Results MD.Topo.Inv MD.Topo.JoinFull MD.Topo.EqEquiv MD.Topo.Pickle MD.Topo.Witness.
 
 (* ---------------------------------------------------------------- copy / deepcopy *)
 (* the repaired copy() preserves every atom (name, element, serial, index), residue (name, number,
@@ -149,17 +149,17 @@ Proof. exact subset_abs_cur_refuted. Qed.
 Print Assumptions subset_abs_current_refuted.
 
 (* ---------------------------------------------------------------- join / stack *)
-(* repaired join(other, keep_resSeq=True): self's chains followed by other's chains (ids kept) renumbered
-   after them, self's bonds followed by other's bonds shifted by the number of atoms of self; nothing
-   that existed is modified and everything the result reaches is fresh.
-   partial: keep_resSeq=False (residue numbers continued from the last residue of self) is modelled and
-   compared with mdtraj on every run, but this theorem does not cover it *)
-Theorem join_abs_partial : forall h t other h' t' va vo,
+(* repaired join(other, keep_resSeq), both values: self's chains followed by other's chains (ids kept)
+   renumbered after them — with keep_resSeq=False other's residues are numbered on from the residue that holds
+   self's last atom ([join_v_gen], [last_resSeq], [reseq_chains]); self's bonds followed by other's bonds shifted
+   by the number of atoms of self; nothing that existed is modified and everything the result reaches is fresh *)
+Theorem join_abs : forall h t other keep h' t' va vo,
   wfo h t -> wfo h other -> abs h t = Some va -> abs h other = Some vo ->
-  join flags_fix h t other true = Some (h', t') ->
-  abs h' t' = Some (join_v va vo) /\ agree (h_next h) h h' /\ (forall l, In l (reach h' t') -> h_next h <= l).
-Proof. exact Join.join_abs. Qed.
-Print Assumptions join_abs_partial.
+  join flags_fix h t other keep = Some (h', t') ->
+  Some (abs h' t') = option_map Some (join_v_gen keep va vo) /\
+  agree (h_next h) h h' /\ (forall l, In l (reach h' t') -> h_next h <= l).
+Proof. exact JoinFull.join_abs_full. Qed.
+Print Assumptions join_abs.
 
 Theorem join_abs_current_refuted :
   exists h t o h' t' va vo, wfo h t /\ wfo h o /\ abs h t = Some va /\ abs h o = Some vo /\
@@ -251,11 +251,62 @@ Example pdb_conect_continuation_fixed :
 Proof. exact pdb_conect_del_fix_witness. Qed.
 Print Assumptions pdb_conect_continuation_fixed.
 
-(* ---------------------------------------------------------------- ownership lists under delete_atom_by_index *)
-(* wf_inv (ownership lists and counters consistent under EVERY op history) is not proved in general:
-   what is proved is that each transformation returns a well-formed result (copy_wf, subset_abs +
-   subset_spec_normal, build_from_abs, join_abs_partial) and that edits do not reach other topologies
-   (edit_frame).  As found the invariant is false: *)
+(* ---------------------------------------------------------------- histories *)
+(* [wf h t] (coq/Topo/Wf.v): chains without repetition and c_index = position; the residues of the chains
+   are, without repetition, a permutation of _residues and r_index = position in _residues; likewise the
+   atoms and _atoms with a_index = position; every atom points back to a residue of the topology; the counters
+   equal the list lengths; every bond joins two atoms of _atoms and has a legal order.  It holds for
+   topologies built and edited in any order.
+
+   Headline: for EVERY finite sequence of new / add_chain / add_residue / add_atom / add_bond / insert_atom /
+   delete_atom_by_index / copy / subset / join (either keep_resSeq) applied, in the repaired variants, from the
+   empty state to any of the topologies created so far (ops that raise included): every topology is well
+   formed, and any two topologies share no reachable object (in particular a copy or a subset and its source,
+   whatever edits either has seen since). *)
+Theorem wf_inv : forall ops i t,
+  forallb hist_op ops = true -> nth_error (st_tops (run flags_fix ops)) i = Some t -> wf (st_heap (run flags_fix ops)) t.
+Proof. exact Inv.wf_inv. Qed.
+Print Assumptions wf_inv.
+
+Theorem independent_inv : forall ops i j ti tj,
+  forallb hist_op ops = true -> i <> j ->
+  nth_error (st_tops (run flags_fix ops)) i = Some ti -> nth_error (st_tops (run flags_fix ops)) j = Some tj ->
+  disjoint (reach (st_heap (run flags_fix ops)) ti) (reach (st_heap (run flags_fix ops)) tj).
+Proof. exact Inv.independent_inv. Qed.
+Print Assumptions independent_inv.
+
+(* the inductive step, usable from any state satisfying the invariant *)
+Theorem inv_step : forall st o, hist_op o = true -> inv st -> inv (step flags_fix st o).
+Proof. exact Inv.inv_step. Qed.
+Print Assumptions inv_step.
+
+(* result lemmas that make the theorems compose: whatever the source looks like (only a successful call is
+   assumed), copy / subset / join return a well-formed topology made of fresh objects only and modify nothing *)
+Theorem copy_result : forall h t h' t',
+  hwf h -> copy flags_fix h t = Some (h', t') ->
+  wf h' t' /\ agree (h_next h) h h' /\ h_next h <= h_next h' /\ (forall l, In l (reach h' t') -> h_next h <= l).
+Proof. exact Results.copy_result. Qed.
+Print Assumptions copy_result.
+
+Theorem subset_result : forall h t keep h' t',
+  hwf h -> subset flags_fix h t keep = Some (h', t') ->
+  wf h' t' /\ agree (h_next h) h h' /\ h_next h <= h_next h' /\ (forall l, In l (reach h' t') -> h_next h <= l).
+Proof. exact Results.subset_result. Qed.
+Print Assumptions subset_result.
+
+Theorem join_result : forall h t other keep h' t',
+  hwf h -> join flags_fix h t other keep = Some (h', t') ->
+  wf h' t' /\ agree (h_next h) h h' /\ h_next h <= h_next h' /\ (forall l, In l (reach h' t') -> h_next h <= l).
+Proof. exact Results.join_result. Qed.
+Print Assumptions join_result.
+
+(* non-vacuity: a history with edits after a copy and a subset satisfies the hypothesis *)
+Example history_witness : forallb hist_op (alias_ops ++ [OInsertAtom 0 0 "N" "N" (Some 0) (Some 0) None; OSubset 1 [0; 2];
+                                                        ODelete 1 1; OJoin 2 0 false])%list = true.
+Proof. reflexivity. Qed.
+Print Assumptions history_witness.
+
+(* as found the invariant is false: *)
 Theorem wf_inv_current_refuted_delete_by_equality :
   let st := run flags_cur del_ops in lists_agree (st_heap st) (slot st 0) = false.
 Proof. exact delete_cur_breaks_ownership. Qed.
@@ -288,6 +339,49 @@ Print Assumptions eq_hash_current_refuted.
 Theorem eq_hash_current_refuted_bond_order : ~ eq_hash_stmt flags_cur.
 Proof. exact eq_hash_cur_refuted_bond_order. Qed.
 Print Assumptions eq_hash_current_refuted_bond_order.
+
+(* == (as a function of the chain-wise value) is an equivalence relation, on all topologies *)
+Theorem eq_equivalence :
+  (forall a, teq a a = true) /\ (forall a b, teq a b = true -> teq b a = true) /\
+  (forall a b c, teq a b = true -> teq b c = true -> teq a c = true).
+Proof. exact (conj teq_refl (conj teq_sym teq_trans)). Qed.
+Print Assumptions eq_equivalence.
+
+(* on the topologies reachable by ANY history (see wf_inv) == implies equal hash: the side conditions of
+   [eq_hash] are consequences of well-formedness *)
+Theorem eq_hash_reachable : forall ops i j ti tj va vb ka kb,
+  forallb hist_op ops = true ->
+  let st := run flags_fix ops in
+  nth_error (st_tops st) i = Some ti -> nth_error (st_tops st) j = Some tj ->
+  abs (st_heap st) ti = Some va -> abs (st_heap st) tj = Some vb ->
+  hash_keys flags_fix (st_heap st) ti = Some ka -> hash_keys flags_fix (st_heap st) tj = Some kb ->
+  teq va vb = true -> xor_equal ka kb = true.
+Proof. exact EqEquiv.eq_hash_reachable. Qed.
+Print Assumptions eq_hash_reachable.
+
+(* eq_preserved: a copy compares equal to its source (both read in the new heap) ... *)
+Theorem eq_preserved_copy : forall h t h' t' v,
+  wfo h t -> abs h t = Some v -> copy flags_fix h t = Some (h', t') ->
+  abs h' t = Some v /\ exists v', abs h' t' = Some v' /\ teq v v' = true /\ teq v' v = true.
+Proof. exact EqEquiv.copy_eq. Qed.
+Print Assumptions eq_preserved_copy.
+
+(* ... so does the subset of ALL atoms of a topology without empty residues/chains (empty ones vanish) ... *)
+Theorem eq_preserved_subset_all : forall h t keep h' t' v,
+  wfo h t -> abs h t = Some v -> no_empty v ->
+  (forall a, In a (v_atoms v) -> keepb keep a = true) ->
+  (forall b, In b (vt_bonds v) -> vb_i b < length (v_atoms v) /\ vb_j b < length (v_atoms v)) ->
+  subset flags_fix h t keep = Some (h', t') ->
+  abs h' t' = Some v /\ teq v v = true.
+Proof. exact EqEquiv.subset_all_eq. Qed.
+Print Assumptions eq_preserved_subset_all.
+
+(* ... and so does a pickle round trip (model: the object graph is duplicated at shifted locations): the
+   abstraction, hence ==, is preserved for every topology, and nothing that existed is modified *)
+Theorem eq_preserved_pickle : forall h t,
+  hwf h -> abs (fst (pickle h t)) (snd (pickle h t)) = abs h t /\ agree (h_next h) h (fst (pickle h t)).
+Proof. intros h t B. exact (conj (pickle_abs h t B) (pickle_agree h t)). Qed.
+Print Assumptions eq_preserved_pickle.
 
 (* ---------------------------------------------------------------- non-vacuity *)
 (* a two-chain topology with chain ids, repeated residue number 0, non-contiguous serials, a virtual
